@@ -16,7 +16,7 @@ use libhaystack::val::Value;
 use serde_json::json;
 
 pub fn fuel_for(len: usize) -> u64 {
-    8 * len as u64 + 256
+    16 * len as u64 + 512
 }
 
 #[derive(Clone, Copy, PartialEq, Eq, Debug)]
